@@ -41,11 +41,11 @@ def gen(tier, seed):
     fns = functions()
     recs, meta, n = [], {}, 0
     for A, B in scenes:
-        for lk in (["id", rng.choice(("scale", "rigid", "farsmall", "farsmall"))] if tier == "quick" else ["id", "scale", "rigid", "farsmall"]):
+        for lk in (["id", rng.choice(("scale", "rigid", "farsmall", "farsmall", "tiny"))] if tier == "quick" else ["id", "scale", "rigid", "farsmall", "tiny"]):
             lift = NW.random_lift(rng, A, B, lk)
             u = None
             if lk != "id" and rng.random() < 0.7:
-                B, u = NW.graze(A, B, rng, DELTA * NW.scene_L(A, B, lift) / lift[0])
+                B, u = NW.graze(A, B, rng, DELTA * NW.scene_L(A, B, lift) / lift[0], extra_dirs=[lift[1].T @ e for e in np.eye(3)])
             for X, Y in ((A, B), (B, A)):
                 clsX, clsY = rng.choice(X.classes()), rng.choice(Y.classes())
                 un = None if u is None else (u if X is A else -u)
